@@ -26,6 +26,7 @@ func c17(c *Ctx) {
 	c17R5(c)
 	c17R6(c)
 	cachedAuthoritative(c, "C17.R8")
+	c17R9(c)
 	itemIndependent(c, "C17.R7", [][3]string{{"pkg/controller/pod", "ReconcilePod.ParsePodNetworksFromAnnotation", "one allocation per requested network"}})
 }
 
@@ -39,11 +40,23 @@ type sliceMutation struct {
 }
 
 func sliceMutations(info *types.Info, fd *ast.FuncDecl, param types.Object) []sliceMutation {
-	aliases := map[types.Object]bool{param: true}
+	return sliceMutationsX(info, fd, param, nil)
+}
+
+// sliceMutationsX: seed is an optional predicate for further expressions that denote the shared
+// slice (a struct field read, for instance).
+func sliceMutationsX(info *types.Info, fd *ast.FuncDecl, param types.Object, seed func(ast.Expr) bool) []sliceMutation {
+	aliases := map[types.Object]bool{}
+	if param != nil {
+		aliases[param] = true
+	}
 	isAliasExpr := func(x ast.Expr) bool {
 		x = ast.Unparen(x)
 		if se, ok := x.(*ast.SliceExpr); ok {
 			x = ast.Unparen(se.X)
+		}
+		if seed != nil && seed(x) {
+			return true
 		}
 		o := identObj(info, x)
 		return o != nil && aliases[o]
@@ -118,7 +131,7 @@ func sliceMutations(info *types.Info, fd *ast.FuncDecl, param types.Object) []sl
 			if cal := Callee(info, t); cal != nil && cal.Pkg() != nil {
 				pk, name := cal.Pkg().Path(), cal.Name()
 				inPlace := (pk == "sort" && (strings.HasPrefix(name, "S") || name == "Stable")) ||
-					(pk == "slices" && (strings.HasPrefix(name, "Sort") || name == "Reverse")) ||
+					(pk == "slices" && (strings.HasPrefix(name, "Sort") || name == "Reverse" || strings.HasPrefix(name, "Delete") || strings.HasPrefix(name, "Compact") || name == "Insert" || name == "Replace")) ||
 					(strings.HasSuffix(pk, "rand") && name == "Shuffle")
 				if inPlace {
 					hit := false
@@ -647,4 +660,79 @@ func reachesCallee(p *Prog, fn *FuncInfo, name string, depth int) bool {
 		}
 	}
 	return false
+}
+
+// R9: the configured candidate list is nobody's scratch space. The callers of
+// GetOne hand it a slice that lives in a struct field (the daemon's
+// configuration, a node's spec); neither that field nor a local that aliases it
+// (x := s.f, x := s.f[:k]) is written through: no element store, append, copy-into
+// or in-place slices / sort helper — such a helper compacts the shared backing
+// array and zeroes its tail.
+func c17R9(c *Ctx) {
+	p := c.P
+	c.Rule("C17.R9", "callers of SwitchPool.GetOne never write through the candidate list they pass: when the argument is (an alias of) a struct field, no element store, append, copy-into, sort or slices.Delete*/Compact*/Insert on it or on a local aliasing it")
+	get := p.Func(vswPkg, "SwitchPool.GetOne")
+	if get == nil {
+		c.Unres("C17.R9", "SwitchPool.GetOne", "not found")
+		return
+	}
+	n := 0
+	for _, cs := range p.CallsTo(nil, get.Obj) {
+		if len(cs.Call.Args) < 4 {
+			continue
+		}
+		fn := cs.Fn
+		info := fn.Info()
+		// the field behind the argument
+		arg := ast.Unparen(derefExpr(fn, cs.Call.Args[3]))
+		var field *types.Var
+		if sel, ok := arg.(*ast.SelectorExpr); ok {
+			field, _ = info.ObjectOf(sel.Sel).(*types.Var)
+		} else if o := identObj(info, arg); o != nil {
+			// a local: some definition reads a field (possibly re-sliced)
+			for _, d := range varDefs(fn, o) {
+				x := ast.Unparen(d.rhs)
+				if se, ok := x.(*ast.SliceExpr); ok {
+					x = ast.Unparen(se.X)
+				}
+				if sel, ok := x.(*ast.SelectorExpr); ok {
+					if fv, _ := info.ObjectOf(sel.Sel).(*types.Var); fv != nil && fv.IsField() {
+						field = fv
+						arg = sel
+					}
+				}
+			}
+		}
+		if field == nil || !field.IsField() {
+			continue
+		}
+		n++
+		seed := func(x ast.Expr) bool {
+			sel, ok := ast.Unparen(x).(*ast.SelectorExpr)
+			return ok && info.ObjectOf(sel.Sel) == field
+		}
+		muts := sliceMutationsX(info, fn.Decl, nil, seed)
+		var what []string
+		for _, m := range muts {
+			what = append(what, m.what+" at "+p.Pos(m.node))
+		}
+		c.Check(len(muts) == 0, "C17.R9", fn.Name+": the candidate list "+exprString(arg)+" is not written through", p.Pos(cs.Call), fn.Key(), "no mutation of the field's slice or of a local aliasing it", strings.Join(what, "; "))
+	}
+	c.Floor("C17.R9", "GetOne call sites that pass a struct field", 1, n)
+	// Add / Del are test hooks: production code never edits the cache behind Block's back
+	for _, name := range []string{"Add", "Del"} {
+		m := p.Method(vswPkg, "SwitchPool", name)
+		if m == nil {
+			continue
+		}
+		sites := p.CallsTo(nil, m)
+		c.Check(len(sites) == 0, "C17.R9", "SwitchPool."+name+" (a test hook) has no production caller", "", vswPkg, "no call outside tests", fmt.Sprintf("%d call(s), first in %s", len(sites), firstKey(sites)))
+	}
+}
+
+func firstKey(cs []CallSite) string {
+	if len(cs) == 0 {
+		return ""
+	}
+	return cs[0].Fn.Key()
 }
